@@ -546,10 +546,16 @@ RecvGarbage(s, m, fresh) ==
                  IN [r EXCEPT !.s = Forget(IF r.err \/ vt.verdict = "other" \/ (m.why # "data" /\ r.out = <<>>) THEN Rollback(r.s, s) ELSE r.s)]
 
 \* Receive of one complete (unfragmented or reassembled) message
+\* a line the peer's user typed that begins like a query message *is* a query message to whoever
+\* receives it (the abstraction reports the versions it names in q)
+QLike(m) == IF m.t = "P" /\ "q" \in DOMAIN m THEN m.q ELSE <<>>
+
 Receive(s, m, fresh, hi) ==
   IF ~OTREnabled(s) THEN Res(s, <<>>, IF m.t = "P" /\ ~m.tagged THEN m.text ELSE -1, FALSE, <<>>)
   ELSE CASE m.t = "E" -> RecvError(s, m)
          [] m.t = "Q" -> LET r == RecvQuery(s, m, fresh) IN [r EXCEPT !.s = Forget(r.s)]
+         [] m.t = "P" /\ QLike(m) # <<>> ->
+              LET r == RecvQuery(s, [t |-> "Q", vs |-> QLike(m)], fresh) IN [r EXCEPT !.s = Forget(r.s)]
          [] m.t = "P" -> LET r == RecvPlain(s, m, fresh) IN [r EXCEPT !.s = Forget(r.s)]
          [] m.t \in {"DHC", "DHK", "RS", "SIG", "D"} ->
               LET r == RecvEncoded(s, m, fresh, hi) IN [r EXCEPT !.s = Forget(r.s)]
